@@ -41,7 +41,10 @@ func NewIOReader(reader io.Reader) ro.Observable[[]byte] {
 				}
 				break
 			}
-			destination.NextWithContext(ctx, buf[:n])
+			// the buffer is reused by the next Read: deliver a copy
+			chunk := make([]byte, n)
+			copy(chunk, buf[:n])
+			destination.NextWithContext(ctx, chunk)
 		}
 
 		return func() {
